@@ -239,7 +239,7 @@ pub fn check(m: &M, obs: &mut Obs) -> Result<(), String> {
 
 fn run_trees(ctx: &mut Ctx) {
     let cases = ctx.share(ctx.tier.pick(400_000, 4_000_000));
-    let p = ctx.tier.pick(TreeParams::quick(), TreeParams::thorough()).finite();
+    let p = ctx.tier.pick(TreeParams::quick(), TreeParams::thorough()).finite().with_big(2);
     run_strategy(ctx, "C03", "trees", cases, arb_doc(p), check);
 }
 
